@@ -366,3 +366,89 @@ Proof.
   destruct (Hgen evs [] d0 Hne Hs0 Ho) as [H1 _]. simpl in H1.
   destruct (crash_safe target _ c _ H1) as [H _]. exact H.
 Qed.
+
+(* ================= loading what Snapshot wrote (lossless), and crash + load ================= *)
+From AM Require Import Model.Nflog Model.Wire Proofs.WireProofs.
+
+Lemma nflog_state_keyed st : forall acc,
+  forallb (fun m => match mesh_key m with Some _ => true | None => false end) st = true ->
+  keys_unique (acc ++ keyed_nflog st) = true ->
+  nflog_state st acc = Some (acc ++ keyed_nflog st).
+Proof.
+  induction st as [|m st IH]; intros acc Hk Hu.
+  - simpl. rewrite app_nil_r. reflexivity.
+  - cbn [forallb] in Hk. apply andb_true_iff in Hk. destruct Hk as [Hk1 Hk2].
+    cbn [nflog_state keyed_nflog map] in *. destruct (mesh_key m) as [k|] eqn:Ek; [|discriminate].
+    cbn [default] in *.
+    rewrite alist_set_fresh by (eapply keys_unique_snoc_fresh; exact Hu).
+    rewrite IH; [|exact Hk2|rewrite <- app_assoc; exact Hu]. rewrite <- app_assoc. reflexivity.
+Qed.
+
+Lemma nflog_load_snapshot st :
+  wf_nflog st -> nflog_keys_ok st = true -> nflog_load (snapshot_nflog st) = Ok (keyed_nflog st).
+Proof.
+  intros Hw Hk. unfold nflog_keys_ok in Hk. apply andb_true_iff in Hk. destruct Hk as [Hk1 Hk2].
+  unfold nflog_load, snapshot_nflog. rewrite nflog_decode_encode by exact Hw.
+  rewrite (nflog_state_keyed st []) by assumption. reflexivity.
+Qed.
+
+Lemma upgrade_prepare s :
+  ws_matchers s = [] -> ws_comments s = [] -> upgrade_silence (prepare_silence s) = s.
+Proof.
+  destruct s as [id ms st en up cs cb cm an s1 s2]. simpl. intros -> ->.
+  destruct s1 as [|m s1]; reflexivity.
+Qed.
+
+Lemma silence_state_keyed st : forall acc,
+  forallb silence_normal st = true ->
+  keys_unique (acc ++ keyed_silences st) = true ->
+  silence_state (map prepare_meshsil st) acc = Some (acc ++ keyed_silences st).
+Proof.
+  induction st as [|m st IH]; intros acc Hk Hu.
+  - simpl. rewrite app_nil_r. reflexivity.
+  - cbn [forallb] in Hk. apply andb_true_iff in Hk. destruct Hk as [Hk1 Hk2].
+    destruct m as [[s|] x]; [|discriminate].
+    unfold silence_normal in Hk1. cbn [ms_sil] in Hk1.
+    destruct (ws_matchers s) eqn:Em; [|discriminate]. destruct (ws_comments s) eqn:Ec; [|discriminate].
+    cbn [map prepare_meshsil silence_state ms_sil ms_exp option_map keyed_silences sil_id] in *.
+    rewrite upgrade_prepare by assumption.
+    rewrite alist_set_fresh by (eapply keys_unique_snoc_fresh; exact Hu).
+    rewrite IH; [|exact Hk2|rewrite <- app_assoc; exact Hu]. rewrite <- app_assoc. reflexivity.
+Qed.
+
+Lemma silence_load_snapshot st :
+  wf_silences (map prepare_meshsil st) -> silences_keys_ok st = true ->
+  silence_load (snapshot_silences st) = Ok (keyed_silences st).
+Proof.
+  intros Hw Hk. unfold silences_keys_ok in Hk. apply andb_true_iff in Hk. destruct Hk as [Hk1 Hk2].
+  unfold silence_load, snapshot_silences. rewrite silences_decode_encode by exact Hw.
+  rewrite (silence_state_keyed st []) by assumption. reflexivity.
+Qed.
+
+(* crash at any point, then restart: the store comes up with exactly the old or exactly the new content *)
+Lemma nflog_crash_restart target tmp d0 old new k c :
+  tmp <> target -> stable d0 target -> snapshot_bytes d0 target = snapshot_nflog old ->
+  wf_nflog old -> nflog_keys_ok old = true -> wf_nflog new -> nflog_keys_ok new = true ->
+  let d := recover_after (snapshot_ops tmp target (snapshot_nflog new)) k c d0 in
+  nflog_load (snapshot_bytes d target) = Ok (keyed_nflog old) \/
+  nflog_load (snapshot_bytes d target) = Ok (keyed_nflog new).
+Proof.
+  intros Hne Hst Hold Hwo Hko Hwn Hkn d.
+  destruct (snapshot_bytes_atomic target tmp d0 (snapshot_nflog new) k c Hne Hst) as [H|H]; fold d in H; rewrite H.
+  - left. rewrite Hold. apply nflog_load_snapshot; assumption.
+  - right. apply nflog_load_snapshot; assumption.
+Qed.
+
+Lemma silences_crash_restart target tmp d0 old new k c :
+  tmp <> target -> stable d0 target -> snapshot_bytes d0 target = snapshot_silences old ->
+  wf_silences (map prepare_meshsil old) -> silences_keys_ok old = true ->
+  wf_silences (map prepare_meshsil new) -> silences_keys_ok new = true ->
+  let d := recover_after (snapshot_ops tmp target (snapshot_silences new)) k c d0 in
+  silence_load (snapshot_bytes d target) = Ok (keyed_silences old) \/
+  silence_load (snapshot_bytes d target) = Ok (keyed_silences new).
+Proof.
+  intros Hne Hst Hold Hwo Hko Hwn Hkn d.
+  destruct (snapshot_bytes_atomic target tmp d0 (snapshot_silences new) k c Hne Hst) as [H|H]; fold d in H; rewrite H.
+  - left. rewrite Hold. apply silence_load_snapshot; assumption.
+  - right. apply silence_load_snapshot; assumption.
+Qed.
